@@ -147,6 +147,9 @@ class KdqTreeDetector:
                     else:
                         self.drift_state = "drift"
                         self.ref_data = ary
+                elif input_type == "stream":
+                    # persistence counts samples *in a row* in the drift region
+                    self._drift_counter = 0
 
     def _inner_set_reference(self, ary, input_type):
         """
